@@ -267,6 +267,8 @@ def cut_loop(ex, state, st, kind, spec, ordinal):
             f = f.closure
         if parts[0] == "ghost":
             base = state.ghost
+        if base is None and parts[0] in names:
+            continue        # a local (re)bound inside the body: what it may alias is listed in the spec's `modifies`
         if base is None:
             raise Unsupported("loop writes through unknown root %s" % path)
         if len(parts) == 1:
